@@ -2,7 +2,8 @@ import FimVerif.Drivers.Proto
 import FimVerif.Model.Authz
 open Lean FimVerif.Proto FimVerif.Authz FimVerif.Gen.Authz
 
-/-! Requests: `["authz", slice]`, `["log", slice]`, `["authz-legacy", slice]`;
+/-! Requests: `["authz", slice]`, `["log", slice]`, `["authz-legacy", slice]`,
+`["authz-asm", raw]`, `["log-asm", raw]` (raw services carry "os": owner sites and "lim": num_sites limited);
 slice = {"nodes":[{name,t,site,caps,alloc,comps}], "svcs":[{name,t,site,bw,mp}], "facs":[..], "ifaces":[null|[]|[null]|[ln]]} -/
 
 def optStr (j : Json) : Option String := j.getStr?.toOption
@@ -63,6 +64,14 @@ def logReply (l : Log) : Json :=
     ("services", Json.arr (l.svcs.map fun p => Json.arr #[Json.str p.1, num p.2]).toArray),
     ("facilities", ofStrs (sortStrs l.facs)), ("sites", ofStrs (sortStrs l.sites))])
 
+def getRawSvc (j : Json) : RawSvc :=
+  { svc := getSvc j, osites := (getStrs (field j "os")).getD [],
+    limited := ((field j "lim").getBool?.toOption).getD false }
+
+def getRawSlice (j : Json) : RawSlice :=
+  { nodes := (arrOf (field j "nodes")).map getNode, svcs := (arrOf (field j "svcs")).map getRawSvc,
+    facs := (arrOf (field j "facs")).map strOrEmpty, ifaces := (arrOf (field j "ifaces")).map getIface }
+
 def handle (j : Json) : Json :=
   match j with
   | .arr #[.str op, x] =>
@@ -70,6 +79,8 @@ def handle (j : Json) : Json :=
     if op == "authz" then authzReply (collect sl)
     else if op == "authz-legacy" then authzReply (collectLegacy sl)
     else if op == "log" then logReply (logCollect sl)
+    else if op == "authz-asm" then authzReply (collectAsm (getRawSlice x))
+    else if op == "log-asm" then logReply (logCollectAsm (getRawSlice x))
     else err "bad-op"
   | _ => err "bad-request"
 
